@@ -566,6 +566,28 @@ func propPolygons(c Case, l geom.Layout, polys [][][]pt, what string) error {
 	}
 	mp := geom.NewMultiPolygonFlat(l, mflat, endss).SetSRID(sridOf(len(mflat)))
 	s := l.Stride()
+	// calls that fail come first (the case's polygons followed by a polygon without rings,
+	// by one whose only ring has no coordinates, by a hole of two points): whether they
+	// return something or panic - a caller that recovers goes on - nothing of them is
+	// left behind for the calls that follow
+	if len(gps) > 0 {
+		for _, bad := range []*geom.Polygon{
+			geom.NewPolygon(l),
+			geom.NewPolygonFlat(l, nil, []int{0}),
+			geom.NewPolygonFlat(l, append(append([]float64{}, gps[0].FlatCoords()...), make([]float64, 2*l.Stride())...), append(append([]int{}, gps[0].Ends()...), len(gps[0].FlatCoords())+2*l.Stride())),
+		} {
+			_ = run.Safe(func() error { _ = xy.PolygonsCentroid(gps[0], append(append([]*geom.Polygon{}, gps[1:]...), bad)...); return nil })
+			_ = run.Safe(func() error {
+				bm := geom.NewMultiPolygon(l)
+				for _, g := range append(append([]*geom.Polygon{}, gps...), bad) {
+					_ = bm.Push(g)
+				}
+				_ = xy.MultiPolygonCentroid(bm)
+				_, _ = xy.Centroid(bm)
+				return nil
+			})
+		}
+	}
 	var wx, wy, tx, ty *big.Rat
 	if A2.Sign() == 0 {
 		var rings [][]pt
